@@ -1,6 +1,7 @@
 CONSTANTS
   InitPrios <- P12
   SetPrios = {1, 2}
+  SetPrioMsgs = {1, 2, 3, 4}
   Alphabet <- AlphaPertNoTick
   K = 1
   ReAddPinned = FALSE
